@@ -1083,9 +1083,19 @@ impl Entry {
                     .filter_map(|c| c.as_token().map(|t| t.text()))
                     .collect::<String>();
                 let formatted = format_value(self.key().as_ref().unwrap(), &concat);
-                crate::lex::lex_inline(&formatted)
-                    .map(|(k, t)| (k, t.to_string()))
-                    .collect::<Vec<_>>()
+                // Every line of the formatter's output is a line of the
+                // value: lex the lines one by one, so that the text after a
+                // newline is not taken for a field name.
+                let mut tokens = vec![];
+                for (i, line) in formatted.split('\n').enumerate() {
+                    if i > 0 {
+                        tokens.push((NEWLINE, "\n".to_string()));
+                    }
+                    tokens.extend(
+                        crate::lex::lex_inline(line).map(|(k, t)| (k, t.to_string())),
+                    );
+                }
+                tokens
             } else {
                 content
                     .into_iter()
@@ -1375,6 +1385,10 @@ fn rebuild_value(
         }
         for (k, t) in tokens {
             if last_was_newline {
+                if k == WHITESPACE {
+                    // replaced by the requested indentation
+                    continue;
+                }
                 builder.token(INDENT.into(), &" ".repeat(indentation as usize));
             }
             builder.token(k.into(), &t);
